@@ -125,9 +125,8 @@ func IsParamN(fn *ssa.Function, i int) func(ssa.Value) bool {
 
 // IsCompare: v is a BinOp with operator op (token.EQL, NEQ, LSS, GTR, ...), possibly under one negation.
 func IsCompare(v ssa.Value, ops ...token.Token) (*ssa.BinOp, bool) {
-	if u, ok := v.(*ssa.UnOp); ok && u.Op == token.NOT {
-		v = u.X
-	}
+	// a negated comparison (`ok := !(a == b); if ok`) is NOT unwrapped here: the caller would read the wrong
+	// polarity; CondEdgesP tries the un-negated form itself and flips the edge
 	b, ok := v.(*ssa.BinOp)
 	if !ok {
 		return nil, false
